@@ -10,6 +10,7 @@ CONSTANTS
 INVARIANT GetterNeverMisreports
 INVARIANT ListsReportAll
 INVARIANT AbsentProtocol
+INVARIANT HasParamExact
 INVARIANT PresentProtocol
 INVARIANT StoreOnlyOnSuccess
 INVARIANT LastOccurrenceOnly
